@@ -184,3 +184,6 @@ func (s *Server) Stop() error {
 	}
 	return first
 }
+
+// CancelServe cancels the context that was given to Server.Serve (and LoadUser) without closing anything (added for C19).
+func (s *Server) CancelServe() { s.cancel() }
